@@ -241,3 +241,35 @@ Proof.
     destruct (get_one 1 os) as [cid|] eqn:C; [|discriminate]. intros [= <-].
     exists t, xid, os, cid. repeat split; auto. right. repeat split; auto. apply N.eqb_neq. exact E.
 Qed.
+
+(** an index at or beyond the nesting depth: decapsulating a message that is no
+    relay leaves it as it is, so the innermost message is returned (never a
+    crash, never an error) *)
+Lemma decap_times_msg n m : is_relay m = false -> decap_times n m = Ok m.
+Proof.
+  intros Hm. induction n as [|n IH]; [reflexivity|].
+  cbn [decap_times]. destruct m; [cbn [decapsulate bind]; exact IH | discriminate].
+Qed.
+
+Theorem decap_times_beyond lvs m : Forall fl_ok lvs -> is_relay m = false ->
+  forall n, length lvs <= n -> decap_times n (nest lvs m) = Ok m.
+Proof.
+  intros F Hm. induction F as [|lv lvs Hlv F IH]; intros n Hn.
+  - cbn [nest fold_right]. apply decap_times_msg. exact Hm.
+  - destruct n as [|n]; [cbn in Hn; lia|].
+    cbn [nest fold_right decap_times]. fold (nest lvs m).
+    rewrite decap_wrap by exact Hlv. cbn [bind]. apply IH. cbn in Hn. lia.
+Qed.
+
+Theorem decapsulate_index_beyond lvs m fuel (index : Z) : Forall fl_ok lvs -> is_relay m = false ->
+  (Z.of_nat (length lvs) - 1 <= index)%Z -> (0 <= index)%Z ->
+  decapsulate_index fuel (nest lvs m) index = Ok m.
+Proof.
+  intros F Hm Hi H0. unfold decapsulate_index.
+  destruct lvs as [|lv lvs].
+  - cbn [nest fold_right]. rewrite Hm. reflexivity.
+  - rewrite is_relay_nest by discriminate. cbn [negb].
+    assert (C1 : (index <? -1)%Z = false) by (apply Z.ltb_ge; lia).
+    assert (C2 : (index =? -1)%Z = false) by (apply Z.eqb_neq; lia).
+    rewrite C1, C2. apply decap_times_beyond; [exact F | exact Hm |]. lia.
+Qed.
